@@ -43,16 +43,22 @@ ASSUMPTIONS = [
 ]
 
 
-def _env(requires_scan: bool, kind: str = "routed"):
+def _env(requires_scan: bool, kind: str = "routed", level: str = "nodes"):
+    """level 'nodes': the scan options are declared for all nodes; 'host': each host entry declares them itself and the
+    nodes level declares the OPPOSITE (the host's own declaration wins)."""
     from primaite.session.environment import PrimaiteGymEnv
 
     quiet()
     cfg = mini_scenario(kind, with_green=False, with_red=False)
     cfg["simulation"]["network"]["nmne_config"] = {"capture_nmne": True, "nmne_capture_keywords": ["DELETE"]}
     opts = cfg["agents"][-1]["observation_space"]["options"]["components"][0]["options"]
-    opts["services_requires_scan"] = requires_scan
-    opts["applications_requires_scan"] = requires_scan
-    opts["file_system_requires_scan"] = requires_scan
+    for key in ("services_requires_scan", "applications_requires_scan", "file_system_requires_scan"):
+        if level == "host":
+            opts[key] = not requires_scan
+            for h in opts["hosts"]:
+                h[key] = requires_scan
+        else:
+            opts[key] = requires_scan
     env = PrimaiteGymEnv(env_config=copy.deepcopy(cfg))
     env.reset()
     return env, cfg
@@ -74,6 +80,7 @@ def host_faithful(
     ao: int, aa: int, av: int, nexec: int,
     fa: int, fv: int, da: int, dv: int, nacc: int,
     ncre: int, ndel: int, nic_en: bool, grp: int,
+    level: str = "nodes",
 ):
     """Host leaves vs ground truth set on the objects. grp selects which family is symbolic (others keep their
     concrete scenario values): 0 service, 3 application, 1 file, 4 folder, 2 power/nic/counters."""
@@ -84,7 +91,7 @@ def host_faithful(
     from primaite.simulator.system.software import SoftwareHealthState as SH
 
     with concrete():
-        env, cfg = _env(scan)
+        env, cfg = _env(scan, level=level)
         game = env.game
         sim = game.simulation
         node = sim.network.get_node_by_hostname("client_1")
@@ -414,10 +421,12 @@ def folder_memory(dv1: int, dv2: int, scanned1: bool, scanned2: bool):
 HARNESSES = {
     "host_faithful": {
         "fn": host_faithful,
-        "quick": [{"fixed": {"grp": g, "scan": s}, "timeout": 280} for g in range(5) for s in (False, True)],
-        "thorough": [{"fixed": {"grp": g, "scan": s}, "timeout": 1500} for g in range(5) for s in (False, True)],
+        "quick": [{"fixed": {"grp": g, "scan": s}, "timeout": 280} for g in range(5) for s in (False, True)]
+        # the scan options declared per host, the nodes level declaring the opposite
+        + [{"fixed": {"grp": g, "scan": s, "level": "host"}, "timeout": 280} for g, s in ((0, False), (3, True), (1, False), (4, True))],
+        "thorough": [{"fixed": {"grp": g, "scan": s, "level": lv}, "timeout": 1500} for g in range(5) for s in (False, True) for lv in ("nodes", "host")],
         "cover": ["node_on", "node_not_on"],
-        "bounds": "per family every member of the real enums for operating state and for actual and visible health independently, unbounded counts; scan-gated and true-health configurations",
+        "bounds": "per family every member of the real enums for operating state and for actual and visible health independently, unbounded counts; scan-gated and true-health configurations, declared for all nodes or per host (with the opposite declared at the nodes level)",
     },
     "net_faithful": {
         "fn": net_faithful,
